@@ -104,7 +104,7 @@ def lean(e):
     if k == "bin":
         return f"({lean(e[2])} {e[1]} {lean(e[3])})"
     if k == "int":
-        return str(e[1])
+        return str(e[1]) if e[1] >= 0 else f"({e[1]})"
     return e[1]
 
 
@@ -147,19 +147,40 @@ def main():
     al = P(tokenize(m2.group(1))).lor()
     if variables(al, set()) - {"alias1", "alias2", "nonalias1", "nonalias2"}:
         raise SystemExit("c01_exprs: unexpected identifiers in may_alias_p")
+    # immediate-range predicates of the x86-64 back end (they select the imm8/imm16/imm32 encodings)
+    xsrc = open(os.path.join(REPO, "mir-gen-x86_64.c")).read()
+    consts = {"INT8_MIN": -128, "INT8_MAX": 127, "UINT8_MAX": 255, "INT16_MIN": -32768, "INT16_MAX": 32767, "UINT16_MAX": 65535,
+              "INT32_MIN": -2147483648, "INT32_MAX": 2147483647, "UINT32_MAX": 4294967295}
+    ranges = []
+    for fn in ("int8_p", "uint8_p", "int16_p", "uint16_p", "int32_p", "uint32_p"):
+        mm = re.search(r"static int (?:MIR_UNUSED )?" + fn + r" \(int64_t v\) \{ return (.*?); \}", xsrc)
+        if not mm:
+            raise SystemExit(f"c01_exprs: {fn} not found or of unexpected shape")
+        e = P(tokenize(mm.group(1))).lor()
+        if variables(e, set()) - {"v"} - set(consts):
+            raise SystemExit(f"c01_exprs: unexpected identifiers in {fn}")
+
+        def subst(x):
+            if x[0] == "var" and x[1] in consts:
+                return ("int", consts[x[1]])
+            return tuple(subst(y) if isinstance(y, tuple) else y for y in x)
+        ranges.append((fn, subst(e)))
     out = ["/- GENERATED on every run by translate/c01_exprs.py from mir-gen.c — do not edit. -/",
            "namespace MirVerif.Gen.C01", "",
            "/-- the overlap test at the end of `alloca_mem_intersect_p` -/",
            "def intersectExpr (disp1 disp2 size1 size2 : Int) : Bool :=", "  " + lean(inter), "",
            "/-- the return expression of `may_alias_p` -/",
            "def mayAlias (alias1 alias2 nonalias1 nonalias2 : Nat) : Bool :=", "  " + lean(al), "",
-           "end MirVerif.Gen.C01", ""]
+           ]
+    for fn, e in ranges:
+        out += [f"/-- `{fn}` of mir-gen-x86_64.c -/", f"def {fn} (v : Int) : Bool :=", "  " + lean(e), ""]
+    out += ["end MirVerif.Gen.C01", ""]
     p = os.path.join(HERE, "lean/MirVerif/Gen/C01_Exprs.lean")
     txt = "\n".join(out)
     if not os.path.exists(p) or open(p).read() != txt:
         open(p, "w").write(txt)
     os.makedirs(os.path.join(HERE, ".cache"), exist_ok=True)
-    json.dump({"intersect": py(inter), "may_alias": py(al)}, open(os.path.join(HERE, ".cache", "c01_exprs.json"), "w"))
+    json.dump({"intersect": py(inter), "may_alias": py(al), "ranges": {fn: py(e) for fn, e in ranges}}, open(os.path.join(HERE, ".cache", "c01_exprs.json"), "w"))
     print("c01_exprs:", lean(inter)[:120])
 
 
